@@ -520,10 +520,101 @@ pub fn all() -> Vec<(&'static str, &'static str, fn() -> R)> {
         ("C11", "corrupt_mini_start", c11_corrupt_mini_start),
         ("C11", "sectors_beyond_fat", c11_sectors_beyond_fat),
         ("C11", "length_without_sectors", c11_length_without_sectors),
+        ("C11", "stale_handles", c11_stale_handles),
         ("C12", "failed_refill", c12_failed_refill),
         ("C13", "flush_retry", c13_flush_retry),
         ("C13", "failed_set_len", c13_failed_set_len),
         ("C14", "lock_depth", c14_lock_depth),
         ("C15", "small_cycle", c15_small_cycle),
     ]
+}
+
+/// Handles whose stream was removed, overwritten, resized or whose slot was reused behind
+/// their back: every call must return Ok or an error (C11 quantifies over every call sequence).
+pub fn c11_stale_handles() -> R {
+    type CF = CompoundFile<SharedBuf>;
+    fn base(v: Version) -> CF {
+        let (_, mut c) = fresh(v);
+        c.create_stream("/a").unwrap().write_all(&[1u8; 100]).unwrap();
+        c.create_stream("/big").unwrap().write_all(&[2u8; 5000]).unwrap();
+        c.create_storage("/d").unwrap();
+        c
+    }
+    for v in [Version::V3, Version::V4] {
+        for victim in ["/a", "/big"] {
+            // behind-the-back change x what the stale handle then does
+            for change in 0..6 {
+                for action in 0..6 {
+                    let mut c = base(v);
+                    let mut h = c.open_stream(victim).unwrap();
+                    let what = format!("{:?} {} change {} action {}", v, victim, change, action);
+                    no_panic(&what, || {
+                        if action == 5 {
+                            let _ = h.write_all(&[9u8; 10]); // dirty buffer before the change
+                        }
+                        match change {
+                            0 => {
+                                let _ = c.remove_stream(victim);
+                            }
+                            1 => {
+                                let _ = c.remove_stream(victim);
+                                let _ = c.create_storage("/zz"); // reuses the slot
+                            }
+                            2 => {
+                                let _ = c.remove_stream(victim);
+                                let _ = c.create_stream("/b").map(|mut s| s.write_all(&[7u8; 20]));
+                            }
+                            3 => {
+                                drop(c.create_stream(victim)); // overwrite: length 0
+                            }
+                            4 => {
+                                if let Ok(mut h2) = c.open_stream(victim) {
+                                    let _ = h2.set_len(10);
+                                }
+                            }
+                            _ => {
+                                if let Ok(mut h2) = c.open_stream(victim) {
+                                    let _ = h2.seek(SeekFrom::End(0));
+                                    let _ = h2.write_all(&[5u8; 4000]);
+                                }
+                            }
+                        }
+                        match action {
+                            0 => {
+                                let _ = h.seek(SeekFrom::End(0));
+                                let _ = h.write_all(&[3u8; 10]);
+                                let _ = h.flush();
+                            }
+                            1 => {
+                                let mut v = Vec::new();
+                                let _ = h.read_to_end(&mut v);
+                            }
+                            2 => {
+                                let _ = h.set_len(10);
+                                let _ = h.set_len(6000);
+                            }
+                            3 => {
+                                let _ = h.seek(SeekFrom::Start(50));
+                                let _ = h.write_all(&[3u8; 5000]);
+                                let _ = h.flush();
+                                let _ = h.seek(SeekFrom::Current(-10));
+                                let mut b = [0u8; 30];
+                                let _ = h.read(&mut b);
+                            }
+                            4 => {
+                                let _ = h.write_all(&[3u8; 10]);
+                                let _ = h.flush();
+                                let _ = h.seek(SeekFrom::End(0));
+                                let _ = h.write_all(&[3u8; 10]);
+                            }
+                            _ => {}
+                        }
+                        drop(h);
+                        let _ = c.flush();
+                    })?;
+                }
+            }
+        }
+    }
+    Ok(())
 }
